@@ -1,7 +1,7 @@
 (* C17 - pattern operations agree with one token-wise grammar.
    Only statements; every proof is `exact <lemma of Pattern/Proofs.v>`. *)
 From Coq Require Import String.
-From GoRes Require Import Pattern.Spec Pattern.Proofs Pattern.RidPattern.
+From GoRes Require Import Pattern.Spec Pattern.Proofs Pattern.RidPattern Pattern.Repeated.
 Open Scope N_scope.
 
 (* the five scanners are the token-wise functions of Pattern/Spec.v, for EVERY byte string *)
@@ -25,6 +25,35 @@ Theorem replace_roundtrip : forall p s m,
   no_gt_start s = true -> nodupb (tag_names p) = true -> values p s = Some m ->
   matches (replace_tags m p) s = true /\ (no_anon p = true -> replace_tags m p = s).
 Proof. exact replace_roundtrip_pf. Qed.
+
+(* ... also for patterns in which a tag occurs more than once.  Values keeps one value per tag (the last
+   occurrence's token) and ReplaceTags substitutes every occurrence, so the round trip needs the extraction to be
+   [consistent]: at every position where the pattern has $t the name token is the value of t *)
+Theorem replace_roundtrip_repeated : forall p s m,
+  no_gt_start s = true -> values p s = Some m -> consistent p s m = true ->
+  matches (replace_tags m p) s = true /\ (no_anon p = true -> replace_tags m p = s).
+Proof. exact replace_roundtrip_repeated_pf. Qed.
+(* it subsumes replace_roundtrip: without repeated tags every extraction is consistent *)
+Theorem nodup_consistent : forall p s m,
+  nodupb (tag_names p) = true -> values p s = Some m -> consistent p s m = true.
+Proof. exact nodup_consistent_pf. Qed.
+(* and consistency is necessary: whenever the substitution gives back the name the extraction was consistent *)
+Theorem roundtrip_consistent : forall p s m,
+  values p s = Some m -> replace_tags m p = s -> consistent p s m = true.
+Proof. exact roundtrip_consistent_pf. Qed.
+(* "$a.x.$a": on "q.x.q" the round trip gives the name; on "q.x.r" extraction succeeds with a = "r" (last wins),
+   is not consistent, and the substitution gives "r.x.r", which does not even match the name *)
+Example repeated_tag_consistent :
+  let p := s2b "$a.x.$a" in let s := s2b "q.x.q" in
+  no_gt_start s = true /\ nodupb (tag_names p) = false /\ no_anon p = true /\
+  exists m, values p s = Some m /\ consistent p s m = true /\ replace_tags m p = s.
+Proof. vm_compute. repeat split. eexists. repeat split. Qed.
+Example repeated_tag_inconsistent :
+  let p := s2b "$a.x.$a" in let s := s2b "q.x.r" in
+  no_gt_start s = true /\ no_anon p = true /\
+  exists m, values p s = Some m /\ consistent p s m = false /\
+            replace_tags m p = s2b "r.x.r" /\ matches (replace_tags m p) s = false.
+Proof. vm_compute. repeat split. eexists. repeat split. Qed.
 
 (* Matches(p,q) = true means p covers q: every name of q is a name of p *)
 Theorem covers_sound : forall p q s,
